@@ -47,33 +47,33 @@ type addr struct {
 }
 
 type Oblig struct {
-	Name    string
-	Kind    string
-	Props   []string
-	Goal    string
-	Prefix  int
-	NDecl   int
-	Pos     token.Pos
-	PosStr  string
-	Fn      string
-	Clause  *Clause
-	Status  string // discharged, sat, unknown
-	Solver  string
-	Time    float64
-	Output  string
-	Cover   bool // a cover query: expected sat
-	Detail  string
-	ctx     *FnCtx
+	Name   string
+	Kind   string
+	Props  []string
+	Goal   string
+	Prefix int
+	NDecl  int
+	Pos    token.Pos
+	PosStr string
+	Fn     string
+	Clause *Clause
+	Status string // discharged, sat, unknown
+	Solver string
+	Time   float64
+	Output string
+	Cover  bool // a cover query: expected sat
+	Detail string
+	ctx    *FnCtx
 }
 
 type loopInfo struct {
-	header  *ssa.BasicBlock
-	blocks  map[*ssa.BasicBlock]bool
-	ordinal int // 1-based, in source order
-	invs    []*Clause
-	cands   []*candidate // houdini candidates
-	writes  map[string]bool
-	wlocals map[string]bool
+	header   *ssa.BasicBlock
+	blocks   map[*ssa.BasicBlock]bool
+	ordinal  int // 1-based, in source order
+	invs     []*Clause
+	cands    []*candidate // houdini candidates
+	writes   map[string]bool
+	wlocals  map[string]bool
 	headHeap heapState // heap state at the header after havoc
 	preHeap  heapState
 }
@@ -93,56 +93,56 @@ type iterInfo struct {
 }
 
 type FnCtx struct {
-	eng     *Engine
-	fn      *ssa.Function
-	con     *Contract
-	key     string
-	sorts   *sorts
-	declSet map[string]bool
-	decls   []string
-	ctx     []string
-	obligs  []*Oblig
-	vals    map[ssa.Value]string
-	tuples  map[ssa.Value][]string
-	addrs   map[ssa.Value]*addr
-	heapSort map[string]string
-	heapOrder []string
-	entry   heapState
-	out     map[*ssa.BasicBlock]heapState
-	reach   map[*ssa.BasicBlock]string
-	edges   map[[2]int]string
-	loops   map[*ssa.BasicBlock]*loopInfo
-	loopList []*loopInfo
-	order   []*ssa.BasicBlock
-	nfresh  int
-	locals  map[*ssa.Alloc]string
-	iters   map[ssa.Value]*iterInfo
-	closures map[ssa.Value]*ssa.MakeClosure
-	defers  []*ssa.Defer
-	strlits map[string]string
-	knownHeaps map[string]string // from a previous pass: declare all at entry
-	cur     heapState
-	curBlock *ssa.BasicBlock
-	names   map[string]bool
-	opts    *fnOpts
-	sweep   bool // emit safety obligations
+	eng           *Engine
+	fn            *ssa.Function
+	con           *Contract
+	key           string
+	sorts         *sorts
+	declSet       map[string]bool
+	decls         []string
+	ctx           []string
+	obligs        []*Oblig
+	vals          map[ssa.Value]string
+	tuples        map[ssa.Value][]string
+	addrs         map[ssa.Value]*addr
+	heapSort      map[string]string
+	heapOrder     []string
+	entry         heapState
+	out           map[*ssa.BasicBlock]heapState
+	reach         map[*ssa.BasicBlock]string
+	edges         map[[2]int]string
+	loops         map[*ssa.BasicBlock]*loopInfo
+	loopList      []*loopInfo
+	order         []*ssa.BasicBlock
+	nfresh        int
+	locals        map[*ssa.Alloc]string
+	iters         map[ssa.Value]*iterInfo
+	closures      map[ssa.Value]*ssa.MakeClosure
+	defers        []*ssa.Defer
+	strlits       map[string]string
+	knownHeaps    map[string]string // from a previous pass: declare all at entry
+	cur           heapState
+	curBlock      *ssa.BasicBlock
+	names         map[string]bool
+	opts          *fnOpts
+	sweep         bool // emit safety obligations
 	usedContracts map[string]bool
 	usedExternal  map[string]bool
-	notes   []string
-	retCount int
-	jsonMode bool
-	nameCount map[string]int
-	prevHeap  map[string]string
-	uncontracted map[string]bool
+	notes         []string
+	retCount      int
+	jsonMode      bool
+	nameCount     map[string]int
+	prevHeap      map[string]string
+	uncontracted  map[string]bool
 	usedSpecFuncs map[string]bool
-	boundFuncs map[ssa.Value]*ssa.Function
-	state     *fnState
-	axioms    []axiomInst
-	usedAxioms []string
-	attachErr string
+	boundFuncs    map[ssa.Value]*ssa.Function
+	state         *fnState
+	axioms        []axiomInst
+	usedAxioms    []string
+	attachErr     string
 	requiresTerms []string
-	reqPrefix int
-	houdiniObs []*houdiniOb
+	reqPrefix     int
+	houdiniObs    []*houdiniOb
 }
 
 type fnOpts struct {
@@ -292,8 +292,8 @@ func (c *FnCtx) heapHavoc(name string) string {
 
 // ---------- heap naming ----------
 
-func heapElem(t types.Type) string  { return "HE_" + typeKey(t) }
-func heapCell(t types.Type) string  { return "HC_" + typeKey(t) }
+func heapElem(t types.Type) string { return "HE_" + typeKey(t) }
+func heapCell(t types.Type) string { return "HC_" + typeKey(t) }
 func heapField(st types.Type, i int) string {
 	s := types.Unalias(st).Underlying().(*types.Struct)
 	return "HF_" + typeKey(st) + "_" + s.Field(i).Name()
@@ -417,7 +417,6 @@ func (c *FnCtx) constTerm(k *ssa.Const) string {
 	unsupp("constant %s", k)
 	return ""
 }
-
 
 func (c *FnCtx) floatLit(f float64) string {
 	bits := math.Float64bits(f)
@@ -934,8 +933,13 @@ func (c *FnCtx) translate() {
 	c.heapDecl("ALLOC", "Int")
 	c.assume(le("1", c.entry["ALLOC"]))
 	// parameters and free variables
-	for _, p := range fn.Params {
+	for i, p := range fn.Params {
 		c.freshVal(p)
+		if i == 0 && fn.Signature.Recv() != nil && c.eng.ownPkgFn(fn) {
+			if _, isPtr := types.Unalias(p.Type()).Underlying().(*types.Pointer); isPtr {
+				c.assume(not(eq(c.vals[p], "0"))) // implicit precondition, checked at call sites
+			}
+		}
 	}
 	for _, fv := range fn.FreeVars {
 		c.freshVal(fv)
